@@ -112,7 +112,7 @@ OneOf(b) == IF b THEN {"value"} ELSE {"nothing"}
 Registered == {"at_optional", "maybe_front", "maybe_back", "pop_back", "pop_front", "find_opt", "find_opt_mapped",
                "grid_at_optional", "from_string", "dynamic", "dynamic_cross", "dynamic_any", "from_range",
                "extract_int", "extract_uint", "extract_string", "stream_to_string", "read_chars", "runtime_index",
-               "narrow", "widen", "file_size", "path_fn", "options_parse", "parse_string"}
+               "narrow", "widen", "string_id", "file_size", "path_fn", "options_parse", "parse_string"}
 
 Outcome(r) ==
   CASE r.f = "at_optional" -> OneOf(r.i < Len(r.xs))
@@ -131,6 +131,7 @@ Outcome(r) ==
     [] r.f = "narrow" -> IF \A i \in 1..Len(r.s) : IsScalar(r.s[i]) THEN {"value"}
                          ELSE {"value", "nothing"}      \* surrogates / beyond U+10FFFF: the locale's facet decides
     [] r.f = "widen" -> IF Utf8Decode(r.s, <<>>)[1] THEN {"value"} ELSE {"exception:std::runtime_error"}
+    [] r.f = "string_id" -> {"value"}            \* to_std_string / from_std_string in a narrow-string build
     [] r.f = "file_size" -> OneOf(r.kind = "file")
     [] r.f = "path_fn" -> {"value"}
     [] r.f = "options_parse" -> {"value", "failure"}
@@ -169,6 +170,7 @@ ValueOk(r) ==
     [] r.f = "runtime_index" -> r.v = <<r.i>>
     [] r.f = "narrow" -> (\A i \in 1..Len(r.s) : IsScalar(r.s[i])) => r.v = Utf8Encode(r.s)
     [] r.f = "widen" -> r.v = Utf8Decode(r.s, <<>>)[2]
+    [] r.f = "string_id" -> r.v = r.s
     [] r.f = "file_size" -> r.v = <<r.size>>
     [] r.f = "path_fn" -> (r.op = "stem_ext" /\ r.plain) => r.v = FileName(r.s)    \* stem ++ extension = file name
     [] r.f = "parse_string" -> (r.g \in {"int", "uint"} /\ r.sk = "none") =>
